@@ -40,8 +40,41 @@ FILE_STYLES = ["python", "c", "html", "cpp", "ml", "jinja", "julia", "tex", "xqu
                "applescript", "bibtex", "vst", "aspx"]
 
 
+def _gen_big(seed, rng):
+    """A batch of several dozen files, run WITH multiprocessing allowed and under a seeded pool schedule: whatever
+    annotate may hand to worker processes, every file gets the verdict that belongs to it."""
+    files, metas = [], []
+    n = rng.randint(36, 70)
+    kinds = rng.pick([["html", "bin"], ["html", "bin", "py"], ["html", "py"], ["c", "bin", "py"]])
+    for i in range(n):
+        k = rng.pick(kinds)
+        d = f"d{i % 4}"
+        if k == "bin":
+            m = {"kind": "uncommentable", "existing_lic": False, "sibling": False, "path": f"{d}/b{i:02d}.png"}
+            files.append({"path": m["path"], "content": G.BINARY})
+        else:
+            st = {"html": "html", "py": "python", "c": "c"}[k]
+            m = {"kind": "styled", "style": st, "existing_lic": False, "sibling": False, "path": f"{d}/t{i:02d}{G.STYLES[st][7]}"}
+            files.append({"path": m["path"], "content": G.body_for(st) * rng.pick([1, 1, 40])})
+        metas.append(m)
+    tok = "-->" if "html" in kinds else "*/"
+    opts = {"holders": [rng.pick(A.SAFE_HOLDERS), POISON[tok]], "licenses": ["MIT"]}
+    names = [m["path"] for m in metas]
+    rng.shuffle(names)
+    obs = [{"kind": "reuse_info", "path": p} for m in metas for p in (m["path"], m["path"] + ".license")]
+    step = {"argv": A.argv_of(opts, names), "clock": "2024-05-05T05:05:05", "observe": obs, "cwd": ".",
+            "pool": {"n": rng.pick([2, 3, 4, 8]), "key": rng.randrange(1 << 30)}}
+    hs = rng.sample(range(8), 2)
+    steps = [dict(step), dict(step, pool={"n": rng.pick([2, 3, 5]), "key": rng.randrange(1 << 30)})]
+    return {"prop": PROP, "seed": seed, "world": {"files": files}, "metas": metas, "opts": opts, "family": "poison",
+            "poison": tok, "usage": None, "named_dirs": None, "big": True,
+            "variants": [{"hashseed": hs[0], "steps": [steps[0]]}, {"hashseed": hs[1], "steps": [steps[1]]}]}
+
+
 def gen_case(seed, tier, index=0):
     rng = Rng(seed, "c11")
+    if rng.chance(0.05):
+        return _gen_big(seed, rng)
     family = rng.wpick([(5, "poison"), (3, "template"), (3, "usage")])
     files, metas = [], []
     n = rng.randint(2, 6)
@@ -134,6 +167,11 @@ def gen_case(seed, tier, index=0):
                     metas.append({"kind": "styled", "style": st, "path": twin, "existing_lic": False, "sibling": False})
         opts["template"] = t
         extra = A.template_files([t])
+        if rng.chance(0.5):
+            # a complete template of the same name in its 'commented' variant: X.jinja2 is the one --template X means
+            extra.append({"path": f".reuse/templates/{t}.commented.jinja2",
+                          "content": "{% for copyright_line in copyright_lines %}\n# {{ copyright_line }}\n{% endfor %}\n#\n"
+                                     "{% for expression in spdx_expressions %}\n# SPDX-License-Identifier: {{ expression }}\n{% endfor %}\n"})
     if family == "usage":
         usage = rng.pick(["no-info", "mutex-lines", "mutex-style", "unknown-template", "unsupported-line", "unsupported-line",
                           "unsupported-line", "unrecognised", "mutex-year", "nonexistent"])
